@@ -5,6 +5,11 @@ import json, subprocess
 HOOK_COMMITS = ["e830588", "a6f2056", "d667224"]
 
 CHECKS = {
+ "C15": dict(
+  technique="runtime differential monitor: filtered analyzers/pools vs unfiltered analyzers on the sub-trace admitted by the C14 reference applied to the analyzer's own view of each frame",
+  text="Exploration: 24k (quick) / 600k (thorough) seeded traces mixing connections with odd frames (three framings incl. loopback family variants, IPv4 IHL 0..15, options, total-length lies, IPv6, non-TCP) x 3..6 filter configurations built from the trace's endpoints; filtered TCP/HTTP/TLS analyzers, filtered pools and the unified analyze_pcap must equal the unfiltered analyzer on the admitted sub-trace, and each frame's raw-filter verdict is compared with the reference on the analyzer's view (~2.6e6 judged items quick). Held = no difference.",
+  note="Needs hooks H1/H2/H3. Uses C14's reference function; frames the analyzer cannot attribute are allowed to pass.",
+  design="6 C15"),
  "C20": dict(
   technique="runtime differential monitor: unified analyzer vs the protocol analyzers packet by packet under a shared virtual clock, and configuration-lattice masking check",
   text="Exploration: 12k (quick) / 300k (thorough) seeded traces with injected hostile frames; every packet that all protocol analyzers accept is compared field by field (raw signature parts, endpoints, labels and quality bit patterns) between HuginnNet::analyze_tcp and the TCP / HTTP / stateless TLS analyzers, for the 16 switch combinations with and without a database (quick rotates half of the non-default configurations per trace). Held = ~3.5e6 judged packet/configuration pairs (quick) without a difference.",
